@@ -238,7 +238,11 @@ def check_graph(rec, r, wn, sim, gid, g, edges, pos_of):
                         else:
                             want = []
                             ic1, ic2 = ic(a), ic(b)
-                            for c in lcs_nosr:
+                            # documented: c0 is the lowest common hypernym "with the highest information content weight",
+                            # i.e. the largest entry of the weight table among them (ties: any of the tied ones)
+                            pw = 'a' if pos_of(a) == 's' else pos_of(a)
+                            top = max((freq[pw][ss[c].id] for c in lcs_nosr), default=None)
+                            for c in [c_ for c_ in lcs_nosr if freq[pw][ss[c_].id] == top]:
                                 ic0 = ic(c)
                                 if name == 'res':
                                     want.append(ic0)
